@@ -133,6 +133,7 @@ func vectorPatterns(kind string) []string {
 }
 
 type vectorCase struct {
+	Hist     uint64 // != 0: the elements of the aliased receiver go through an order-changing history first
 	T        gen.ElemType
 	Storage  string
 	Op       containerOp
@@ -359,6 +360,9 @@ func (vc vectorCase) eval(mode string) (res snap.Vec, p *fw.Panic, setup bool) {
 				r = gen.NullVector(vc.T, vc.Storage, vc.N)
 			}
 		}
+		if vc.Hist != 0 && mode != "ref" && r != nil {
+			historyOnVector(r, vc.T, prng.New(vc.Hist))
+		}
 		if vc.Op.kind == "VS" {
 			if mode == "alias" && strings.Contains(vc.Pat, "s=r[i]") {
 				s = r.At(vc.SI)
@@ -407,8 +411,55 @@ func containerClass(T gen.ElemType, pat string, recv, other int) string {
 	return "any"
 }
 
-func (vc vectorCase) class() string { return containerClass(vc.T, vc.Pat, vc.recvOrd, vc.other) }
-func (mc matrixCase) class() string { return containerClass(mc.T, mc.Pat, mc.recvOrd, mc.other) }
+func (vc vectorCase) differs() bool {
+	ref, pr, ok1 := vc.eval("ref")
+	got, pa, ok2 := vc.eval("alias")
+	if !ok1 || !ok2 || pr != nil {
+		return false
+	}
+	if pa != nil {
+		return !aliasRejection(pa.Msg)
+	}
+	return snap.DiffVec(got, ref, vc.T.IsInt) != ""
+}
+
+func (mc matrixCase) differs() bool {
+	ref, pr, ok1 := mc.eval("ref")
+	got, pa, ok2 := mc.eval("alias")
+	if !ok1 || !ok2 || pr != nil {
+		return false
+	}
+	if pa != nil {
+		return !aliasRejection(pa.Msg)
+	}
+	return snap.DiffMat(got, ref, mc.T.IsInt) != ""
+}
+
+// class; ",needs-history" if the divergence disappears when the same operands
+// are built plainly.
+func (vc vectorCase) class() string {
+	c := containerClass(vc.T, vc.Pat, vc.recvOrd, vc.other)
+	if vc.Hist != 0 {
+		q := vc
+		q.Hist = 0
+		if !q.differs() {
+			c += ",needs-history"
+		}
+	}
+	return c
+}
+
+func (mc matrixCase) class() string {
+	c := containerClass(mc.T, mc.Pat, mc.recvOrd, mc.other)
+	if mc.Hist != 0 {
+		q := mc
+		q.Hist = 0
+		if !q.differs() {
+			c += ",needs-history"
+		}
+	}
+	return c
+}
 
 // judgeContainer compares an aliased evaluation with the reference and emits
 // the violation; shared by vectors and matrices.
@@ -547,6 +598,29 @@ func runVectors(c *fw.Ctx) {
 			}
 		}
 	})
+	var hc []containerCombo
+	for _, k := range combos {
+		if k.T.IsReal {
+			hc = append(hc, k)
+		}
+	}
+	c.CoverMax("max:vector-history-combos", int64(len(hc)))
+	c.Cases("vector.history.directed", len(hc), func(cs *fw.Case) {
+		k := hc[cs.Index]
+		for rep := 0; rep < 4; rep++ {
+			vc := genVectorCase(cs.R, k.T, k.storage, k.op, k.concrete, k.pat)
+			vc.Hist = cs.R.Uint64() | 1
+			vc.judge(cs)
+			cs.Cover("history-cases:vector")
+		}
+	})
+	c.Cases("vector.history.random", c.N(15000, 300000), func(cs *fw.Case) {
+		k := hc[cs.R.Intn(len(hc))]
+		vc := genVectorCase(cs.R, k.T, k.storage, k.op, k.concrete, k.pat)
+		vc.Hist = cs.R.Uint64() | 1
+		vc.judge(cs)
+		cs.Cover("history-cases:vector")
+	})
 	c.Cases("vector.random", c.N(60000, 1500000), func(cs *fw.Case) {
 		k := combos[cs.R.Intn(len(combos))]
 		vc := genVectorCase(cs.R, k.T, k.storage, k.op, k.concrete, k.pat)
@@ -588,6 +662,7 @@ func matrixPatterns(kind string) []string {
 }
 
 type matrixCase struct {
+	Hist         uint64
 	T            gen.ElemType
 	Storage      string
 	OtherStorage string
@@ -843,6 +918,9 @@ func (mc matrixCase) eval(mode string) (res snap.Mat, p *fw.Panic, setup bool) {
 				r = gen.NullMatrix(mc.T, mc.Storage, mc.Rows, mc.Cols)
 			}
 		}
+		if mc.Hist != 0 && mode != "ref" && r != nil {
+			historyOnMatrix(r, mc.T, prng.New(mc.Hist))
+		}
 		if mc.Op.kind == "MS" {
 			if mode == "alias" && mc.Pat == "s=r[i,j]" {
 				s = r.At(mc.SI, mc.SJ)
@@ -960,6 +1038,29 @@ func runMatrices(c *fw.Ctx) {
 	}()
 	combos := matrixCombos()
 	c.CoverMax("max:matrix-combos", int64(len(combos)))
+	var hc []containerCombo
+	for _, k := range append(append([]containerCombo(nil), combos...), dc...) {
+		if k.T.IsReal {
+			hc = append(hc, k)
+		}
+	}
+	c.CoverMax("max:matrix-history-combos", int64(len(hc)))
+	c.Cases("matrix.history.directed", len(hc), func(cs *fw.Case) {
+		k := hc[cs.Index]
+		for rep := 0; rep < 4; rep++ {
+			mc := genMatrixCase(cs.R, k.T, k.storage, k.op, k.concrete, k.pat)
+			mc.Hist = cs.R.Uint64() | 1
+			mc.judge(cs)
+			cs.Cover("history-cases:matrix")
+		}
+	})
+	c.Cases("matrix.history.random", c.N(15000, 300000), func(cs *fw.Case) {
+		k := hc[cs.R.Intn(len(hc))]
+		mc := genMatrixCase(cs.R, k.T, k.storage, k.op, k.concrete, k.pat)
+		mc.Hist = cs.R.Uint64() | 1
+		mc.judge(cs)
+		cs.Cover("history-cases:matrix")
+	})
 	c.Cases("matrix.directed", len(combos), func(cs *fw.Case) {
 		k := combos[cs.Index]
 		for rep := 0; rep < 6; rep++ {
